@@ -22,7 +22,9 @@ const c17Marker = "OUTSIDE-MARKER-7f3a9c"
 
 var c17Tokens = []string{"..", ".", "", "sub", "a.txt", "b.css", "SECRET.txt", "rootx", "%2e%2e", "..%2f", "%2f", `\`, `%5c..`, "%00", "a.txt.", ".../", "s.css", "..%5c", "c.js", "e.scss", "m.mjs", "acss", "x.css.bak", "dir.js", "inner.md",
 	// path-segment parameters (RFC 3986 ';') and their encoding
-	"a.txt;.css", "d.md;x.js", "a.txt%3B.css", ";"}
+	"a.txt;.css", "d.md;x.js", "a.txt%3B.css", ";",
+	// names one byte longer than a servable one (with the empty token they form "name//")
+	"s.cssx", "c.jsx", "s.css.", "s.css~"}
 
 type c17Case struct {
 	Handler string `json:"handler"` // StaticDir StaticFS StaticFiles StaticFile
@@ -103,6 +105,8 @@ func c17Setup() {
 		}
 		w("SECRET.txt", c17Marker+":secret")
 		w("rootx/s.css", c17Marker+":sibling")
+		w("rootx/index.html", c17Marker+":sibling-index")
+		w("index.html", c17Marker+":parent-index")
 		w("rootx/a.txt", c17Marker+":sibling-a")
 		w("b.css", c17Marker+":parent-css")
 	})
@@ -405,7 +409,7 @@ func c17Run(c c17Case, st *fw.Stats) []fw.Viol {
 var c17Spec = fw.Spec[c17Case]{
 	ID:    "C17",
 	Level: "model_checking",
-	Rule: "complete enumeration: all request paths of <=3 (thorough 4) tokens over 29 tokens {.., ., empty, sub, a.txt, b.css, SECRET.txt, rootx, %2e%2e, ..%2f, %2f, \\, %5c.., %00, 'a.txt.', '.../', s.css, ..%5c, c.js, e.scss, m.mjs, acss, x.css.bak, dir.js, inner.md, 'a.txt;.css', 'd.md;x.js', 'a.txt%3B.css', ';'} after each mount prefix, sent with URL.RawPath = the raw string and URL.Path = its decoding, for StaticDir / StaticFS(http.Dir) / StaticFiles(css|js) / StaticFile x prefixes {/d, /deep/d, /root (= the directory's own name)} x both UseEncodedPath settings (and with a global path variable named like the handlers' internal variable), against a real sandbox tree with marked files outside the root (parent directory, name-prefix sibling 'rootx'); plus relative roots in 5 spellings x 4 handlers x 3 arrangements (other mounts whose directory names differ by leading dots / slashes; another router or another mount registered while the process worked in a directory of the same layout) probed with all paths of <=2 tokens over 12 tokens; " +
+	Rule: "complete enumeration: all request paths of <=3 (thorough 4) tokens over 33 tokens {.., ., empty, sub, a.txt, b.css, SECRET.txt, rootx, %2e%2e, ..%2f, %2f, \\, %5c.., %00, 'a.txt.', '.../', s.css, ..%5c, c.js, e.scss, m.mjs, acss, x.css.bak, dir.js, inner.md, 'a.txt;.css', 'd.md;x.js', 'a.txt%3B.css', ';'} after each mount prefix, sent with URL.RawPath = the raw string and URL.Path = its decoding, for StaticDir / StaticFS(http.Dir) / StaticFiles(css|js) / StaticFile x prefixes {/d, /deep/d, /root (= the directory's own name)} x both UseEncodedPath settings (and with a global path variable named like the handlers' internal variable), against a real sandbox tree with marked files outside the root (parent directory, name-prefix sibling 'rootx'); plus relative roots in 5 spellings x 4 handlers x 3 arrangements (other mounts whose directory names differ by leading dots / slashes; another router or another mount registered while the process worked in a directory of the same layout) probed with all paths of <=2 tokens over 12 tokens; " +
 		"oracle: no body carries an outside marker or lists an outside directory, every 200 body is a file under the root, StaticFiles answers 200 only for allowed extensions, StaticFile only its file; non-trivial = a path containing a dot-dot in some encoding",
 	Assume: []string{"relative to the sandbox tree and the OS / file system the check runs on", "net/http's FileServer is part of the implementation under test, not of the oracle"},
 	Bounds: func(tier string) map[string]any {
